@@ -338,8 +338,12 @@ func gen(t *rapid.T) Case {
 		}
 		ci := cand[rapid.IntRange(0, len(cand)-1).Draw(t, "rcid")]
 		prio := rapid.SampledFrom(prios).Draw(t, "rprio")
+		// churn: the block leaves the store while the answer is in flight and comes back
+		// (announced) after an acknowledgement, with a re-request in between - the want then
+		// has no task of its own and lives on the peer's list alone until the re-announcement
+		churn := rapid.IntRange(0, 2).Draw(t, "rchurn") == 0
 		var seq []Op
-		if !gstore[ci] && rapid.IntRange(0, 3).Draw(t, "rpresent") != 0 {
+		if !gstore[ci] && (churn || rapid.IntRange(0, 3).Draw(t, "rpresent") != 0) {
 			seq = append(seq, Op{Kind: "add", Cids: []int{ci}})
 		}
 		have := rapid.IntRange(0, 2).Draw(t, "rhave") != 0
@@ -379,10 +383,44 @@ func gen(t *rapid.T) Case {
 				}
 			}
 		}
-		follow("rmid", 2)
-		seq = append(seq, Op{Kind: "ack", Both: rapid.Bool().Draw(t, "rboth")})
-		follow("rpost", 4)
-		seq = append(seq, Op{Kind: "ack", Idx: rapid.IntRange(0, 1).Draw(t, "ridx")})
+		if churn {
+			rm := Op{Kind: "remove", Cids: []int{ci}}
+			again := want(have)
+			if rapid.IntRange(0, 3).Draw(t, "rcother") != 0 {
+				again = want(!have)
+			}
+			switch rapid.IntRange(0, 3).Draw(t, "rcorder") {
+			case 0:
+				seq = append(seq, again, rm)
+			case 1:
+				seq = append(seq, rm) // no re-request: the first want itself waits for the block
+			default:
+				seq = append(seq, rm, again)
+			}
+			if rapid.IntRange(0, 3).Draw(t, "rcmid") == 0 {
+				follow("rmid", 2)
+			}
+			seq = append(seq, Op{Kind: "ack", Both: rapid.Bool().Draw(t, "rboth")})
+			back := Op{Kind: "add", Cids: []int{ci}}
+			switch rapid.IntRange(0, 3).Draw(t, "rcback") {
+			case 0:
+				// back only after every acknowledgement
+				seq = append(seq, Op{Kind: "ack", Idx: rapid.IntRange(0, 1).Draw(t, "ridx")}, back)
+			case 1:
+				seq = append(seq, back, Op{Kind: "take", Hold: holdMode("rchold")},
+					Op{Kind: "ack", Idx: rapid.IntRange(0, 1).Draw(t, "ridx")})
+			default:
+				seq = append(seq, back, Op{Kind: "ack", Idx: rapid.IntRange(0, 1).Draw(t, "ridx")})
+			}
+			if rapid.IntRange(0, 3).Draw(t, "rcpost") == 0 {
+				follow("rpost", 4)
+			}
+		} else {
+			follow("rmid", 2)
+			seq = append(seq, Op{Kind: "ack", Both: rapid.Bool().Draw(t, "rboth")})
+			follow("rpost", 4)
+			seq = append(seq, Op{Kind: "ack", Idx: rapid.IntRange(0, 1).Draw(t, "ridx")})
+		}
 		for _, op := range seq {
 			track(op)
 			c.Ops = append(c.Ops, op)
@@ -518,6 +556,10 @@ type heldEnv struct {
 	seqs  map[int]int
 	// topics that may be active tasks of this envelope (popped with it, not yet TasksDone)
 	active map[int]bool
+	// topics whose active task of this envelope is known to be a HAVE task (the envelope
+	// carries a HAVE for them): the queue does not skip a want-block task pushed meanwhile
+	// (taskMerger.HasNewInfo: no active want-block and the new task is one)
+	haveTask map[int]bool
 }
 
 type harness struct {
@@ -549,14 +591,21 @@ type harness struct {
 	// (keyStaleAck), so that a queued task for the CID can outlive cancels and full want-lists
 	// and merge with the tasks of later requests; until the CID is served or the peer disconnects
 	ackStale []map[int]bool
+	// acc: the wants the engine accepted (listed by WantlistForPeer after the peer's latest
+	// message) and has had no reason to drop since: an entry leaves the list through the
+	// peer's own messages (cancel, full want-list, overflow eviction), through PeerDisconnected,
+	// or through MessageSent for an envelope that answers it (a block answers any entry, a HAVE
+	// answers an entry that is a want-have). The liveness clause speaks about these wants,
+	// whether or not the engine still lists them at the end.
+	acc []map[int]bool
 
 	// envelopes taken and not yet acknowledged by MessageSent and Sent, oldest first
 	held     []*heldEnv
 	holdMode int // Hold of the take whose envelope is outstanding
 
 	ntOverflow, ntRemoved, ntRace bool
-	classes               map[string]bool
-	envelopes             int
+	classes                       map[string]bool
+	envelopes                     int
 }
 
 func (h *harness) denied(pi, ci int) bool {
@@ -692,6 +741,7 @@ func (h *harness) doMsg(step int, op Op) *kit.Result {
 	}
 
 	// model update
+	var decs []pushDec
 	if op.Full {
 		for ci := range h.want[pi] {
 			if _, again := wants[ci]; !again {
@@ -723,14 +773,17 @@ func (h *harness) doMsg(step int, op Op) *kit.Result {
 			h.want[pi][ci] = w
 		}
 		delete(h.dropped[pi], ci)
-		if h.inflight(pi, ci) {
-			w.raced = true
+		d := pushDec{ci: ci, have: e.WantType == pb.Message_Wantlist_Have, dh: e.SendDontHave,
+			present: h.present(ci), infl: h.inflight(pi, ci), haveTask: h.inflightHaveOnly(pi, ci),
+			upgrade: w.seq > 0 && w.have && e.WantType == pb.Message_Wantlist_Block}
+		if d.infl {
 			h.ntRace = true
 			h.classes["inflight:re-request"] = true
-			if w.seq > 0 && w.have != (e.WantType == pb.Message_Wantlist_Have) {
+			if w.seq > 0 && w.have != d.have {
 				h.classes["inflight:want-type-changed"] = true
 			}
 		}
+		decs = append(decs, d)
 		w.seq++
 		w.prio = e.Priority
 		w.have = e.WantType == pb.Message_Wantlist_Have
@@ -761,6 +814,13 @@ func (h *harness) doMsg(step int, op Op) *kit.Result {
 		return fail("", "step %d: MessageReceived asked to kill the connection for a well-formed message", step)
 	}
 	after := h.ledger(pi)
+	h.acc[pi] = map[int]bool{}
+	for ci := range after {
+		h.acc[pi][ci] = true
+	}
+	for _, d := range decs {
+		h.pushed(pi, d, after)
+	}
 
 	// full message replaces the list / accepted list is a subset of what the peer asked for
 	if r := h.checkSubset(step, pi, after); r != nil {
@@ -1010,6 +1070,54 @@ func (h *harness) doMsg(step int, op Op) *kit.Result {
 	return nil
 }
 
+// pushDec: what is known about one want of an incoming message when it arrives.
+type pushDec struct {
+	ci       int
+	have, dh bool // requested want type is want-have; asks for DONT_HAVE
+	present  bool // block in the store at intake
+	infl     bool // an envelope that may hold an active task for the CID is in flight
+	haveTask bool // ... and every such envelope holds a HAVE task for it
+	upgrade  bool // the peer's previous request of this want period was a want-have, this one is a want-block
+}
+
+// pushed settles, for a want the engine accepted with the requested type, whether the task
+// the engine pushes for it (if any) can be skipped by the task queue because of an active task
+// of an envelope in flight (then the answer in flight stands for the want), and what an
+// earlier HAVE is worth for it.
+func (h *harness) pushed(pi int, d pushDec, after map[int]wl.Entry) {
+	w := h.want[pi][d.ci]
+	ent, ok := after[d.ci]
+	if w == nil || w.denied || !ok {
+		return // not accepted: no liveness demand
+	}
+	if (ent.WantType == pb.Message_Wantlist_Have) != d.have || h.c.Sizes[d.ci] == 0 {
+		// the list holds an older request's type (this one was cut from an over-long
+		// message), or the engine's view of a zero-length block is involved: stay coarse
+		if d.infl {
+			w.raced = true
+		}
+		return
+	}
+	if d.upgrade && w.ansPos {
+		// a HAVE sent for the earlier want-have does not answer the want-block
+		w.ansPos = false
+		h.classes["upgrade-after-have"] = true
+	}
+	if !d.present && !(h.c.Cfg.SendDH && d.dh) {
+		// no task is pushed for this request: the want waits on the list for NotifyNewBlocks,
+		// nothing can be skipped
+		if d.infl {
+			h.classes["inflight:re-request-no-task"] = true
+		}
+		return
+	}
+	wantBlock := !d.have || (d.present && h.c.Cfg.ReplaceSize > 0 && h.c.Sizes[d.ci] <= h.c.Cfg.ReplaceSize)
+	w.raced = d.infl && !(wantBlock && d.haveTask)
+	if d.infl && !w.raced {
+		h.classes["inflight:want-block-over-active-have"] = true
+	}
+}
+
 // checkSubset: the engine's want-list for the peer only holds CIDs the peer currently wants.
 func (h *harness) checkSubset(step, pi int, led map[int]wl.Entry) *kit.Result {
 	var extra []int
@@ -1168,9 +1276,14 @@ func (h *harness) onEnvelope(step int, env *vb.Envelope) *kit.Result {
 	// model at build time: the tasks are popped (no longer pending); which want each answer
 	// belongs to. What the answers mean for the peer's list is applied when the network side
 	// calls MessageSent (settle), which is when the engine updates its ledger.
-	he := &heldEnv{env: env, pi: pi, wants: map[int]*mwant{}, seqs: map[int]int{}, active: map[int]bool{}}
+	he := &heldEnv{env: env, pi: pi, wants: map[int]*mwant{}, seqs: map[int]int{}, active: map[int]bool{}, haveTask: map[int]bool{}}
 	for ci := range h.mayPend[pi] {
 		he.active[ci] = true
+	}
+	for _, bp := range pres {
+		if bp.Type == pb.Message_Have {
+			he.haveTask[h.idx[bp.Cid]] = true
+		}
 	}
 	for _, b := range blks {
 		ci := h.idx[b.Cid()]
@@ -1225,6 +1338,21 @@ func (h *harness) inflight(pi, ci int) bool {
 	return false
 }
 
+// inflightHaveOnly: some envelope in flight may hold an active task for the CID and every such
+// envelope holds a HAVE task for it.
+func (h *harness) inflightHaveOnly(pi, ci int) bool {
+	any := false
+	for _, he := range h.held {
+		if he.pi == pi && he.active[ci] {
+			if !he.haveTask[ci] {
+				return false
+			}
+			any = true
+		}
+	}
+	return any
+}
+
 // settle does the next thing server.taskWorker does with a taken envelope: MessageSent, then
 // Sent (both when both is set), and applies to the model what the answers mean for the peer's
 // list (mirrors MessageSent; conservative: an entry is only dropped from the model when the
@@ -1257,6 +1385,31 @@ func (h *harness) settle(he *heldEnv, both bool) {
 				h.ackStale[he.pi][ci] = true // a sent HAVE drops the entry if it is a want-have (now)
 				h.classes["ack-older-than-latest-request"] = true
 			}
+		}
+		// which accepted wants the acknowledgement lets the engine drop from the peer's list
+		led := h.ledger(he.pi)
+		for _, b := range he.env.Message.Blocks() {
+			delete(h.acc[he.pi], h.idx[b.Cid()])
+		}
+		for _, bp := range he.env.Message.BlockPresences() {
+			if bp.Type != pb.Message_Have {
+				continue
+			}
+			ci := h.idx[bp.Cid]
+			ent, listed := led[ci]
+			w := h.want[he.pi][ci]
+			if listed && ent.WantType == pb.Message_Wantlist_Block && w != nil && !w.have {
+				// the peer upgraded the want to a want-block since the HAVE was built: the HAVE
+				// does not answer that, the want stays accepted
+				if h.acc[he.pi][ci] {
+					h.classes["have-acked-after-upgrade"] = true
+					if !h.present(ci) {
+						h.classes["have-acked-after-upgrade:block-absent"] = true
+					}
+				}
+				continue
+			}
+			delete(h.acc[he.pi], ci)
 		}
 		h.e.MessageSent(he.env.Peer, he.env.Message)
 		if !both {
@@ -1323,6 +1476,7 @@ func runBubble(c Case) kit.Result {
 		h.mayPend = append(h.mayPend, map[int]bool{})
 		h.stray = append(h.stray, map[int]bool{})
 		h.ackStale = append(h.ackStale, map[int]bool{})
+		h.acc = append(h.acc, map[int]bool{})
 	}
 	h.bs = blockstore.NewBlockstore(dssync.MutexWrap(ds.NewMapDatastore()))
 	for _, ci := range c.Init {
@@ -1380,9 +1534,22 @@ func runBubble(c Case) kit.Result {
 						if !w.denied {
 							w.maybeShed = len(h.mayPend[pi]) >= h.c.Cfg.Limit
 							h.mayPend[pi][ci] = true
-							if h.inflight(pi, ci) {
-								w.raced = true
-								h.classes["inflight:block-added"] = true
+							// the task NotifyNewBlocks pushes for the listed entry (none when the
+							// engine does not list the want)
+							if ent, ok := h.ledger(pi)[ci]; ok {
+								infl := h.inflight(pi, ci)
+								if infl {
+									h.classes["inflight:block-added"] = true
+								}
+								entHave := ent.WantType == pb.Message_Wantlist_Have
+								if entHave != w.have || h.c.Sizes[ci] == 0 {
+									if infl {
+										w.raced = true
+									}
+								} else {
+									wantBlock := !entHave || h.c.Sizes[ci] <= h.c.Cfg.ReplaceSize
+									w.raced = infl && !(wantBlock && h.inflightHaveOnly(pi, ci))
+								}
 							}
 						}
 					}
@@ -1420,6 +1587,7 @@ func runBubble(c Case) kit.Result {
 			h.mayPend[op.Peer] = map[int]bool{}
 			h.stray[op.Peer] = map[int]bool{}
 			h.ackStale[op.Peer] = map[int]bool{}
+			h.acc[op.Peer] = map[int]bool{}
 		case "tick":
 			time.Sleep(150 * time.Millisecond)
 		}
@@ -1468,11 +1636,20 @@ func runBubble(c Case) kit.Result {
 		for ci := range led {
 			cis = append(cis, ci)
 		}
+		for ci := range h.acc[pi] {
+			if _, ok := led[ci]; !ok {
+				cis = append(cis, ci)
+			}
+		}
 		sort.Ints(cis)
 		for _, ci := range cis {
 			w := h.want[pi][ci]
-			if w == nil {
-				continue // reported by invariants
+			if w == nil || w.denied {
+				continue // on the list: reported by invariants
+			}
+			gone := ""
+			if _, ok := led[ci]; !ok {
+				gone = " (the engine dropped it from the peer's want-list without the peer cancelling it, an overflow or an answer that covers it)"
 			}
 			if w.maybeShed {
 				h.classes["liveness-exempt:queue-bound"] = true
@@ -1487,10 +1664,10 @@ func runBubble(c Case) kit.Result {
 					continue // see the empty-block clause
 				}
 				if !w.ansPos {
-					return *fail("", "after draining: peer %d's accepted want for CID %d (block present) was never answered and nothing is queued", pi, ci)
+					return *fail("", "after draining: peer %d's accepted want for CID %d (block present) was never answered and nothing is queued%s", pi, ci, gone)
 				}
 			} else if w.alwaysDH && w.everDH && h.c.Cfg.SendDH && !w.ansNeg && !w.sawPresent {
-				return *fail("", "after draining: peer %d's accepted want for absent CID %d asked for DONT_HAVE and was never answered", pi, ci)
+				return *fail("", "after draining: peer %d's accepted want for absent CID %d asked for DONT_HAVE and was never answered%s", pi, ci, gone)
 			}
 		}
 	}
@@ -1574,7 +1751,7 @@ func sample(c Case) any {
 
 var spec = kit.Spec[Case]{
 	Prop: "C36", Name: "main",
-	Rule:  "decision engine in a synctest bubble: generated script (<=30/45 steps) of want-list messages (full/incremental, ties, cancels, duplicate, identity and oversize CIDs) from 1-3 peers, directed overflow bursts (a message filling the list to the limit with 0..limit block-less wants, then one message of 1..limit newcomers mostly with blocks and higher priority), directed in-flight races (request for a CID, its answer taken but MessageSent and/or Sent held back, re-request with the other/same want type, cancel, block churn or further takes for the same CID before and after the acknowledgements), blockstore add+notify/remove, take-envelope with MessageSent+Sent at once or as separate later ack steps (several envelopes may be in flight, acknowledged in any order), disconnect, tick; limits 1..32, replace size 0/8/1024, filter, maxCidSize, targetMessageSize; per-envelope oracle, want-list subset/limit invariant, overflow predicates P1-P5, answered-at-quiescence; non-trivial = an overflow with >=2 distinct priorities among the existing entries, a block removed while an accepted want for it was unanswered, or a re-request/cancel for a CID arriving while an answer for it is in flight",
+	Rule:  "decision engine in a synctest bubble: generated script (<=30/45 steps) of want-list messages (full/incremental, ties, cancels, duplicate, identity and oversize CIDs) from 1-3 peers, directed overflow bursts (a message filling the list to the limit with 0..limit block-less wants, then one message of 1..limit newcomers mostly with blocks and higher priority), directed in-flight races (request for a CID, its answer taken but MessageSent and/or Sent held back, re-request with the other/same want type, cancel, block churn or further takes for the same CID before and after the acknowledgements; one variant in three removes the block while the answer is in flight, re-requests, and re-adds + announces it after an acknowledgement), blockstore add+notify/remove, take-envelope with MessageSent+Sent at once or as separate later ack steps (several envelopes may be in flight, acknowledged in any order), disconnect, tick; limits 1..32, replace size 0/8/1024, filter, maxCidSize, targetMessageSize; per-envelope oracle, want-list subset/limit invariant, overflow predicates P1-P5, answered-at-quiescence for every want the engine accepted and had no reason to drop (cancel, full list, overflow, disconnect, or an acknowledged answer covering it) whether or not it is still listed; non-trivial = an overflow with >=2 distinct priorities among the existing entries, a block removed while an accepted want for it was unanswered, or a re-request/cancel for a CID arriving while an answer for it is in flight",
 	Quick: 2500, Thorough: 12000,
 	Gen: gen, Run: run, Sample: sample, Journal: true,
 }
